@@ -262,9 +262,16 @@ class Op:
         self.flags = flags or {}  # has_return_value / has_out_params / instLevel / returnClass
 
     def to_json(self):
-        d = {'name': self.name, 'kind': self.kind, 'meth': cimproto.cps(self.meth), 'post': self.post}
+        d = {'name': self.name, 'py': self.py, 'kind': self.kind, 'meth': cimproto.cps(self.meth), 'post': self.post}
         d.update(self.flags)
         return d
+
+    @property
+    def py(self):
+        """the Python operation method whose _imethodcall/_methodcall/_iexportcall call handles the response"""
+        if self.flags.get('iter'):
+            return self.meth
+        return self.name.split(':')[0]
 
 
 def _instname(g):
@@ -478,6 +485,7 @@ def _ops():
 
     RV, OUT = dict(has_return_value=True, has_out_params=False), dict(has_return_value=True, has_out_params=True)
     VOID = dict(has_return_value=False, has_out_params=False)
+    # the signatures above are cross-checked with the source text (tools/extractors/rsp.py: op_flags)
     add('EnumerateInstances', 'imethod', 'EnumerateInstances', 'instList', lambda c: c.EnumerateInstances('CIM_Foo'),
         v_namedinstances, **RV)
     add('EnumerateInstanceNames', 'imethod', 'EnumerateInstanceNames', 'pathList',
@@ -563,10 +571,32 @@ def _ops():
 _OPS = None
 
 
+def source_op_flags():
+    import importlib.util
+    import os
+    import common
+    path = os.path.join(common.VERIF, 'tools', 'extractors', 'rsp.py')
+    spec = importlib.util.spec_from_file_location('ex_rsp', path)
+    mod = importlib.util.module_from_spec(spec)
+    spec.loader.exec_module(mod)
+    return {py: (meth, kind, hr, ho) for py, meth, kind, hr, ho in mod.op_flags(common.REPO)}
+
+
 def ops():
+    """the operation table; signatures (call kind, method name, has_return_value, has_out_params) are taken
+    from the source text of pywbem/_cim_operations.py"""
     global _OPS
     if _OPS is None:
-        _OPS = _ops()
+        table = _ops()
+        src = source_op_flags()
+        for o in table:
+            meth, kind, hr, ho = src[o.py]
+            o.kind = kind
+            if kind != 'method':
+                o.meth = meth
+            if kind == 'imethod':
+                o.flags['has_return_value'], o.flags['has_out_params'] = hr, ho
+        _OPS = table
     return _OPS
 
 
